@@ -279,28 +279,24 @@ def coherent(g):
     exp = {a: r.nbr(a) for a in r.atoms if r.nbr(a)}
     if nv != exp:
         probs.append(f"neighbour sets {nv} disagree with bonds {exp}")
+    # W7/W8: descriptors are stored under their own centre.  (Ligands need not exist or be bonded: the
+    # public API accepts stereo-invalid descriptors and offers is_stereo_valid(); remove_bond keeps them.)
     if r.stereo_kind:
         for a, d in r.atom_stereo.items():
-            if a not in r.atoms or d[1][0] != a:
+            if d[1][0] != a:
                 probs.append(f"atom stereo key {a} vs {d}")
-            if any(x is not None and x not in r.atoms for x in d[1]):
-                probs.append(f"atom stereo {d} mentions a missing atom")
         for b, d in r.bond_stereo.items():
             if frozenset(d[1][2:4]) != b:
                 probs.append(f"bond stereo key {set(b)} vs {d}")
-            if any(x is not None and x not in r.atoms for x in d[1]):
-                probs.append(f"bond stereo {d} mentions a missing atom")
-            if b not in r.bonds:
-                probs.append(f"bond stereo {d} on a missing bond")
     if r.kind == "SCRG":
         for a, v in r.atom_changes.items():
             for c, d in v.items():
-                if a not in r.atoms or d[1][0] != a or any(x is not None and x not in r.atoms for x in d[1]):
-                    probs.append(f"atom stereo change {a} {c} {d} inconsistent")
+                if d[1][0] != a:
+                    probs.append(f"atom stereo change {a} {c} {d} stored under the wrong key")
         for b, v in r.bond_changes.items():
             for c, d in v.items():
-                if frozenset(d[1][2:4]) != b or any(x is not None and x not in r.atoms for x in d[1]) or b not in r.bonds:
-                    probs.append(f"bond stereo change {set(b)} {c} {d} inconsistent")
+                if frozenset(d[1][2:4]) != b:
+                    probs.append(f"bond stereo change {set(b)} {c} {d} stored under the wrong key")
     # public views (these calls may themselves be defective; callers snapshot raw_state around them)
     try:
         if set(g.atoms) != set(r.atoms) or len(g) != len(r.atoms) or g.n_atoms != len(r.atoms):
